@@ -399,6 +399,11 @@ def primitives(interp):
         return TypeDesc("choice", *vals)
     ns["Choice"] = choice
 
+    @_b("AsciiStrLen")
+    def ascii_str_len(interp, maxoct=None):
+        return TypeDesc("str", maxoct, True)
+    ns["AsciiStrLen"] = ascii_str_len
+
     @_b("OptionalOf")
     def optional_of(interp, t):
         return TypeDesc("optional", t)
@@ -408,6 +413,11 @@ def primitives(interp):
     def list_of(interp, t, maxlen):
         return TypeDesc("list", t, maxlen)
     ns["ListOf"] = list_of
+
+    @_b("TupleOf")
+    def tuple_of(interp, *ts):
+        return TypeDesc("tuple", *ts)
+    ns["TupleOf"] = tuple_of
 
     # decorators used in contract files (registration happens in contracts.py)
     def reg(kind):
